@@ -22,7 +22,8 @@ RULE = ("packets drawn field-by-field over the full width of every field (edge v
         "n_args 0-4; a case is non-trivial when it is in range with >= 1 argument or a "
         "decode whose payload ends inside the argument words; one encode in five re-uses ONE packet object "
         "(built and encoded with other values, then every field assigned, then encoded again); all encodes run in "
-        "one process, failed encodes included; distinct = distinct canonical JSON")
+        "one process, failed encodes included; plus twin groups: 3-8 packets equal in every field but one (and exact "
+        "repeats), the documented layout of each decoded by the implementation one after the other; distinct = distinct canonical JSON")
 
 SDP_FIELDS = ["tag", "dest_port", "dest_cpu", "src_port", "src_cpu", "dest_x", "dest_y", "src_x", "src_y"]
 WIDTH = {"tag": 256, "dest_port": 8, "dest_cpu": 32, "src_port": 8, "src_cpu": 32,
@@ -216,6 +217,64 @@ def gen_cases(ctx, n):
     return cases
 
 
+def twin_groups(ctx, n):
+    """groups of packets that are equal in every field but one; the documented layout of each (Lean spec)
+    is decoded by the implementation, all in this one process: decode(layout(p)) must be p"""
+    rng = ctx.rng
+    groups = []
+    for _ in range(n):
+        proto = rng.choice(["sdp", "scp", "scp"])
+        base = gen_packet(rng, False)
+        fields = SDP_FIELDS + ["reply", "data"] + (["cmd_rc", "seq", "arg1", "arg2", "arg3"] if proto == "scp" else [])
+        group = [base]
+        for f in rng.sample(fields, rng.randrange(2, 6)):
+            q = dict(group[rng.randrange(len(group))])
+            if f == "reply":
+                q[f] = not q[f]
+            elif f == "data":
+                q[f] = [rng.randrange(256) for _ in range(rng.choice([0, 1, 4, 9]))]
+            elif f in WIDTH:
+                q[f] = (q[f] + rng.randrange(1, WIDTH[f])) % WIDTH[f]
+            elif f in ("cmd_rc", "seq"):
+                q[f] = (q[f] + rng.randrange(1, 65536)) % 65536
+            elif q[f] is not None:
+                q[f] = (q[f] + rng.randrange(1, 2 ** 32)) % 2 ** 32
+            else:
+                continue
+            group.append(q)
+        if rng.random() < 0.5:
+            group += [dict(g) for g in rng.sample(group, min(2, len(group)))]      # exact repeats too
+        groups.append({"proto": proto, "twins": group})
+    return groups
+
+
+def eval_twins(ctx, groups):
+    reqs, idx = [], []
+    for g in groups:
+        for q in g["twins"]:
+            reqs.append(dict(q, suite="c15", op="layout_" + g["proto"]))
+    lay = ctx.lean(reqs)
+    i = 0
+    for g in groups:
+        scp = g["proto"] == "scp"
+        bad = None
+        for q in g["twins"]:
+            bs = lay[i]
+            i += 1
+            n = sum(1 for a in ("arg1", "arg2", "arg3") if q[a] is not None) if scp else 0
+            back = impl_decode(g["proto"], bs, n)
+            want = {k: v for k, v in q.items() if scp or k in SDP_FIELDS + ["reply", "data"]}
+            ctx.traces += 1
+            if back.get("ok") != want and bad is None:
+                bad = (q, back)
+        ctx.tag("twin_group_" + g["proto"])
+        ctx.case(g, True)
+        if bad is not None:
+            ctx.violation("decode-of-layout-%s" % g["proto"],
+                          "decoding the documented layout of %r (after decoding packets equal to it in all fields "
+                          "but one, in the same process) gave %r" % bad, g)
+
+
 def exhaustive_portcpu(ctx):
     """every value of the port/cpu byte, both directions (thorough)"""
     cases = []
@@ -239,11 +298,14 @@ def run(ctx):
         cases += exhaustive_portcpu(ctx)
     for i in range(0, len(cases), 20000):
         eval_cases(ctx, cases[i:i + 20000])
+    eval_twins(ctx, twin_groups(ctx, ctx.scale(600, 20000) * (4 if ctx.extended else 1)))
 
 
 def replay(ctx, payload):
     ctx.extra["rule"] = RULE
     case = payload["case"]
+    if "twins" in case:
+        return eval_twins(ctx, [case])
     if case.get("after_failed_encode"):
         impl_encode(case["after_failed_encode"]["proto"], case["after_failed_encode"]["pkt"])
     eval_cases(ctx, [case])
